@@ -87,6 +87,30 @@ type vReqGen struct {
 // and closes its channel only an hour of virtual time later. A cancelled scan must not wait for it.
 var vStuckGenerator bool
 
+// vPipeInput: the targets come through the REAL ip/port pair-list reader from a pipe whose first line
+// arrives only after an hour of virtual time (the reads know nothing of the context): a scan that
+// is cancelled meanwhile ends at once - starting it must not wait for input either.
+var vPipeInput bool
+
+type vSlowPipe struct {
+	data    []byte
+	started bool
+}
+
+func (p *vSlowPipe) Read(b []byte) (int, error) {
+	if !p.started {
+		p.started = true
+		vs.Sleep(time.Hour)
+	}
+	if len(p.data) == 0 {
+		return 0, io.EOF
+	}
+	n := copy(b, p.data)
+	p.data = p.data[n:]
+	return n, nil
+}
+func (p *vSlowPipe) Close() error { return nil }
+
 func (g *vReqGen) GenerateRequests(ctx context.Context, r *scan.Range) (<-chan *scan.Request, error) {
 	if g.genErr != nil {
 		return nil, g.genErr
@@ -418,7 +442,15 @@ func vGenericScenario(pattern []int, workers int, exitDelay time.Duration, rate 
 			scanner = scan.NewRateLimitScanner(scanner, ratelimit.New(rate, ratelimit.Per(time.Second)))
 		}
 		results := scan.NewResultChan(ctx, 1000)
-		engine := &vDoneTap{scan.NewScanEngine(st.gen, scanner, results, scan.WithScanWorkerCount(workers))}
+		var gen scan.RequestGenerator = st.gen
+		if vPipeInput {
+			var lines []byte
+			for i := range pattern {
+				lines = append(lines, fmt.Sprintf("{\"ip\":\"10.0.0.%d\",\"port\":%d}\n", 100+i, i+1)...)
+			}
+			gen = scan.NewFileIPPortGenerator(func() (io.ReadCloser, error) { return &vSlowPipe{data: lines}, nil })
+		}
+		engine := &vDoneTap{scan.NewScanEngine(gen, scanner, results, scan.WithScanWorkerCount(workers))}
 		conf := newEngineConfig(withLogger(st.logger), withScanRange(&scan.Range{}), withExitDelay(exitDelay))
 		if err := startScanEngine(ctx, engine, conf); err != nil {
 			panic(err)
